@@ -1,1 +1,343 @@
-// harnesses for module m_printf (included into /repo under cfg(kani))
+// C16: -printf record directives; C11: the format parser's leaf functions never panic.
+use super::*;
+use crate::find::matchers::entry::verif_kani::*;
+use crate::find::matchers::Follow;
+
+pub fn printf_empty() -> Printf { Printf { format: FormatString { components: Vec::new() }, output_file: None } }
+/// Constructor cut for parser harnesses.
+pub fn printf_new_stub(_f: &str, _o: Option<File>) -> Result<Printf, Box<dyn Error>> { Err(From::from("stub")) }
+
+// ------------------------------------------------------------------ C11 leaves
+// @harness props=C11,C16 tier=quick cost=10
+// @exec FormatStringParser::{front,advance_one}
+// @sym the text after '%' or '\': one character, ASCII or any 2-byte UTF-8 sequence
+// @bounds one character (1 or 2 bytes)
+// @replay printf_cli
+/// Consuming one character consumes the whole character: no panic, the parser ends up at the next character boundary.
+#[kani::proof]
+#[kani::unwind(4)]
+#[kani::stub(alloc::fmt::format, fmt_stub)]
+#[kani::stub(alloc::raw_vec::handle_error, he_stub)]
+#[kani::stub(std::alloc::handle_alloc_error, hae_stub)]
+fn c11_printf_advance_one() {
+    let b: [u8; 3] = kani::any();
+    let two: bool = kani::any();
+    let clen = if two { kani::assume(b[0] >= 0xC2 && b[0] <= 0xDF && b[1] >= 0x80 && b[1] <= 0xBF); 2 } else { kani::assume(b[0] < 0x80); 1 };
+    // optionally one more ASCII byte after it
+    let more: bool = kani::any();
+    kani::assume(b[clen] < 0x80);
+    let len = clen + if more { 1 } else { 0 };
+    let s = unsafe { std::str::from_utf8_unchecked(&b[..len]) };
+    let mut p = FormatStringParser { string: s };
+    let r = p.advance_one();
+    assert!(r.is_ok());
+    assert!(p.string.len() == len - clen);
+    kani::cover!(two && more);
+    kani::cover!(!two && !more);
+    std::mem::forget(r);
+}
+#[kani::proof]
+#[kani::unwind(4)]
+#[kani::stub(alloc::fmt::format, fmt_stub)]
+#[kani::stub(alloc::raw_vec::handle_error, he_stub)]
+#[kani::stub(std::alloc::handle_alloc_error, hae_stub)]
+fn c11_printf_advance_one_canary() {
+    let b: [u8; 2] = kani::any();
+    kani::assume(b[0] >= 0xC2 && b[0] <= 0xDF && b[1] >= 0x80 && b[1] <= 0xBF);
+    let s = unsafe { std::str::from_utf8_unchecked(&b[..]) };
+    let mut p = FormatStringParser { string: s };
+    let r = p.advance_one();
+    assert!(p.string.len() == 1); // "one character = one byte": must FAIL
+    std::mem::forget(r);
+}
+
+/// A symbolic UTF-8 string of exactly N bytes with at most one 2-byte character at a symbolic position.
+fn utf8_with_one_wide<const N: usize>(b: &[u8; N]) {
+    let wide_at: usize = kani::any();
+    kani::assume(wide_at <= N); // == N: no wide character
+    let mut i = 0;
+    while i < N {
+        if i == wide_at && i + 1 < N { kani::assume(b[i] >= 0xC2 && b[i] <= 0xDF); }
+        else if wide_at < N && i == wide_at + 1 { kani::assume(b[i] >= 0x80 && b[i] <= 0xBF); }
+        else { kani::assume(b[i] < 0x80); }
+        i += 1;
+    }
+    kani::assume(wide_at == N || wide_at + 1 < N);
+}
+
+// @harness props=C11,C16 tier=quick cost=40
+// @exec FormatStringParser::{peek,advance_by}
+// @sym 4-byte text with at most one 2-byte character at any position; count 0..5
+// @bounds text of 4 bytes
+/// peek/advance_by never slice inside a character: no panic for any count; Ok => exactly `count` bytes.
+#[kani::proof]
+#[kani::unwind(6)]
+#[kani::stub(alloc::fmt::format, fmt_stub)]
+#[kani::stub(alloc::raw_vec::handle_error, he_stub)]
+#[kani::stub(std::alloc::handle_alloc_error, hae_stub)]
+fn c11_printf_peek_advance() {
+    let b: [u8; 4] = kani::any();
+    utf8_with_one_wide(&b);
+    let s = unsafe { std::str::from_utf8_unchecked(&b[..]) };
+    let count: usize = kani::any();
+    kani::assume(count <= 5);
+    let mut p = FormatStringParser { string: s };
+    match p.peek(count) { Ok(x) => assert!(x.len() == count), Err(e) => { assert!(count > 4 || !s.is_char_boundary(count)); std::mem::forget(e); } }
+    match p.advance_by(count) { Ok(x) => { assert!(x.len() == count); } Err(e) => { std::mem::forget(e); } }
+    kani::cover!(count == 3 && !s.is_char_boundary(3));
+    kani::cover!(count == 4);
+}
+#[kani::proof]
+#[kani::unwind(6)]
+#[kani::stub(alloc::fmt::format, fmt_stub)]
+#[kani::stub(alloc::raw_vec::handle_error, he_stub)]
+#[kani::stub(std::alloc::handle_alloc_error, hae_stub)]
+fn c11_printf_peek_advance_canary() {
+    let b: [u8; 4] = kani::any();
+    utf8_with_one_wide(&b);
+    let s = unsafe { std::str::from_utf8_unchecked(&b[..]) };
+    let p = FormatStringParser { string: s };
+    let r = p.peek(3);
+    assert!(r.is_ok()); // a wide character may straddle offset 3: must FAIL
+    std::mem::forget(r);
+}
+
+fn oct(c: u8) -> bool { c >= b'0' && c <= b'7' }
+// @harness props=C11,C16 tier=quick cost=60
+// @exec FormatStringParser::{parse_escape_sequence,front,peek,advance_by,advance_one}
+// @sym the 4 bytes after a backslash: ASCII with at most one 2-byte character at any position
+// @bounds 4 bytes of text
+// @replay printf_cli
+/// Escapes: \a \b \f \n \r \t \v \\ \0 and \NNN (three octal digits) give their character, \c is flush, every other
+/// escape is an error; never a panic, whatever follows.
+#[kani::proof]
+#[kani::unwind(6)]
+#[kani::stub(alloc::fmt::format, fmt_stub)]
+#[kani::stub(alloc::raw_vec::handle_error, he_stub)]
+#[kani::stub(std::alloc::handle_alloc_error, hae_stub)]
+fn c16_printf_escape() {
+    let b: [u8; 4] = kani::any();
+    utf8_with_one_wide(&b);
+    let s = unsafe { std::str::from_utf8_unchecked(&b[..]) };
+    let mut p = FormatStringParser { string: s };
+    let r = p.parse_escape_sequence();
+    let c = b[0];
+    if c < 0x80 {
+        if oct(c) && oct(b[1]) && oct(b[2]) {
+            let code = ((c - b'0') as u32) * 64 + ((b[1] - b'0') as u32) * 8 + (b[2] - b'0') as u32;
+            match &r { Ok(FormatComponent::Literal(l)) => { assert!(l.chars().next() == char::from_u32(code)); assert!(p.string.len() == 1); } _ => assert!(false) }
+        } else {
+            let want: Option<u8> = match c { b'a' => Some(7), b'b' => Some(8), b'f' => Some(12), b'n' => Some(10), b'r' => Some(13), b't' => Some(9), b'v' => Some(11), b'0' => Some(0), b'\\' => Some(b'\\'), _ => None };
+            match &r {
+                Ok(FormatComponent::Literal(l)) => { assert!(want.is_some() && l.len() == 1 && l.as_bytes()[0] == want.unwrap()); assert!(p.string.len() == 3); }
+                Ok(FormatComponent::Flush) => assert!(c == b'c'),
+                Ok(_) => assert!(false),
+                Err(_) => assert!(want.is_none() && c != b'c'),
+            }
+        }
+    } else {
+        assert!(r.is_err());
+    }
+    kani::cover!(r.is_ok() && oct(c) && oct(b[1]) && oct(b[2]));
+    kani::cover!(oct(c) && oct(b[1]) && b[2] >= 0x80);
+    kani::cover!(r.is_err() && c >= 0x80);
+    std::mem::forget(r);
+}
+#[kani::proof]
+#[kani::unwind(6)]
+#[kani::stub(alloc::fmt::format, fmt_stub)]
+#[kani::stub(alloc::raw_vec::handle_error, he_stub)]
+#[kani::stub(std::alloc::handle_alloc_error, hae_stub)]
+fn c16_printf_escape_canary() {
+    let b: [u8; 4] = kani::any();
+    kani::assume(b[0] < 0x80 && b[1] < 0x80 && b[2] < 0x80 && b[3] < 0x80);
+    let s = unsafe { std::str::from_utf8_unchecked(&b[..]) };
+    let mut p = FormatStringParser { string: s };
+    let r = p.parse_escape_sequence();
+    if b[0] == b'e' { assert!(r.is_ok()); } // \e is not an escape here: must FAIL
+    std::mem::forget(r);
+}
+
+// ------------------------------------------------------------------ C16 record directives
+fn dec(mut v: u64, out: &mut [u8; 20]) -> usize {
+    let mut tmp = [0u8; 20]; let mut n = 0;
+    if v == 0 { out[0] = b'0'; return 1; }
+    while v > 0 { tmp[n] = b'0' + (v % 10) as u8; v /= 10; n += 1; }
+    let mut i = 0; while i < n { out[i] = tmp[n - 1 - i]; i += 1; }
+    n
+}
+fn check_decimal(r: Result<Cow<'_, str>, Box<dyn Error>>, v: u64) {
+    match r {
+        Ok(s) => {
+            let mut want = [0u8; 20];
+            let n = dec(v, &mut want);
+            let b = s.as_bytes();
+            assert!(b.len() == n);
+            let mut i = 0; while i < 6 { if i < n { assert!(b[i] == want[i]); } i += 1; }
+            std::mem::forget(s);
+        }
+        Err(e) => { std::mem::forget(e); assert!(false); }
+    }
+}
+
+// @harness props=C16 tier=quick cost=200
+// @exec format_directive for %s %n %i %U %G %d, u64::to_string / u32::to_string / usize::to_string (real integer formatting)
+// @sym status record; the rendered field value below 100000 (keeps the decimal oracle loop short); depth below 100000
+// @bounds field values < 10^5; cached record (record selection is C13's c13_entry_metadata_record)
+/// %s %n %i %U %G render size, link count, inode, uid, gid of the record in decimal; %d the depth.
+#[kani::proof]
+#[kani::unwind(8)]
+#[kani::stub(alloc::raw_vec::handle_error, he_stub)]
+#[kani::stub(std::alloc::handle_alloc_error, hae_stub)]
+#[kani::stub(std::rt::thread_cleanup, noop_stub)]
+fn c16_directive_decimal() {
+    let (m, st) = any_metadata();
+    let depth: usize = kani::any();
+    kani::assume(depth < 100_000);
+    let entry = entry_with(m, depth, Follow::Never);
+    let which: u8 = kani::any();
+    kani::assume(which < 6);
+    let (d, v) = match which {
+        0 => (FormatDirective::Size, st.st_size as u64),
+        1 => (FormatDirective::HardlinkCount, st.st_nlink),
+        2 => (FormatDirective::Inode, st.st_ino),
+        3 => (FormatDirective::User { as_name: false }, st.st_uid as u64),
+        4 => (FormatDirective::Group { as_name: false }, st.st_gid as u64),
+        _ => (FormatDirective::Depth, depth as u64),
+    };
+    kani::assume(v < 100_000);
+    check_decimal(format_directive(&entry, &d), v);
+    kani::cover!(which == 0 && v == 99_999);
+    kani::cover!(which == 5 && v == 0);
+    kani::cover!(which == 3 && v == 1000);
+    std::mem::forget(entry);
+}
+#[kani::proof]
+#[kani::unwind(8)]
+#[kani::stub(alloc::raw_vec::handle_error, he_stub)]
+#[kani::stub(std::alloc::handle_alloc_error, hae_stub)]
+#[kani::stub(std::rt::thread_cleanup, noop_stub)]
+fn c16_directive_decimal_canary() {
+    let (m, st) = any_metadata();
+    kani::assume(st.st_nlink < 100_000 && st.st_ino < 100_000);
+    let entry = entry_with(m, 1, Follow::Never);
+    check_decimal(format_directive(&entry, &FormatDirective::Inode), st.st_nlink); // wrong field: must FAIL
+    std::mem::forget(entry);
+}
+
+// @harness props=C16 tier=quick cost=120
+// @exec format_directive(%m) with the real format!("{:>03o}")
+// @sym status record (all mode bits)
+// @bounds none beyond the type
+// @replay printf_m
+/// %m prints all twelve permission bits in octal (at least three digits).
+#[kani::proof]
+#[kani::unwind(8)]
+#[kani::stub(alloc::raw_vec::handle_error, he_stub)]
+#[kani::stub(std::alloc::handle_alloc_error, hae_stub)]
+#[kani::stub(std::rt::thread_cleanup, noop_stub)]
+fn c16_directive_m() {
+    let (m, st) = any_metadata();
+    let entry = entry_with(m, 1, Follow::Never);
+    let r = format_directive(&entry, &FormatDirective::Permissions(PermissionsFormat::Octal));
+    match r {
+        Ok(s) => {
+            let b = s.as_bytes();
+            assert!(b.len() >= 3 && b.len() <= 4);
+            let mut v = 0u32; let mut i = 0;
+            while i < 6 { if i < b.len() { assert!(b[i] >= b'0' && b[i] <= b'7'); v = v * 8 + (b[i] - b'0') as u32; } i += 1; }
+            assert!(v == (st.st_mode & 0o7777));
+            kani::cover!(b.len() == 4);
+            kani::cover!(v == 0);
+            std::mem::forget(s);
+        }
+        Err(e) => { std::mem::forget(e); assert!(false); }
+    }
+    std::mem::forget(entry);
+}
+#[kani::proof]
+#[kani::unwind(8)]
+#[kani::stub(alloc::raw_vec::handle_error, he_stub)]
+#[kani::stub(std::alloc::handle_alloc_error, hae_stub)]
+#[kani::stub(std::rt::thread_cleanup, noop_stub)]
+fn c16_directive_m_canary() {
+    let (m, _st) = any_metadata();
+    let entry = entry_with(m, 1, Follow::Never);
+    if let Ok(s) = format_directive(&entry, &FormatDirective::Permissions(PermissionsFormat::Octal)) {
+        assert!(s.len() == 3); // "always three digits": must FAIL
+        std::mem::forget(s);
+    }
+    std::mem::forget(entry);
+}
+
+fn letter(mode: u32) -> u8 {
+    match mode & libc::S_IFMT {
+        libc::S_IFREG => b'f', libc::S_IFDIR => b'd', libc::S_IFLNK => b'l', libc::S_IFBLK => b'b',
+        libc::S_IFCHR => b'c', libc::S_IFIFO => b'p', libc::S_IFSOCK => b's', _ => b'U',
+    }
+}
+// @harness props=C16 tier=quick cost=250 flags=nomem
+// @exec format_directive(%y, %Y), format_non_link_file_type, WalkEntry::{path_is_symlink,file_type}, WalkError::{is_not_found,is_loop}
+// @sym world (all file types, stat errno {ENOENT, ELOOP, EACCES}), follow P/H/L, depth 0..1
+// @bounds one path; %Y is asserted only where the follow mode does not apply to the entry (under -L, GNU's %Y and -xtype differ by design)
+// @assume kernel contract for stat vs lstat
+/// %y is the letter of the type -type tests (the record the follow mode selects); %Y, for an entry the follow mode does
+/// not resolve, is the letter -xtype tests: the link's target type, N if dangling, L on a loop, ? on other errors.
+#[kani::proof]
+#[kani::unwind(3)]
+#[kani::stub(alloc::fmt::format, fmt_stub)]
+#[kani::stub(alloc::raw_vec::handle_error, he_stub)]
+#[kani::stub(std::alloc::handle_alloc_error, hae_stub)]
+#[kani::stub(std::rt::thread_cleanup, noop_stub)]
+#[kani::stub(std::fs::metadata, stat_stub)]
+#[kani::stub(std::fs::symlink_metadata, lstat_stub)]
+fn c16_directive_y() {
+    let (lst, sst, s_ok, s_err) = any_world(&[libc::ENOENT, libc::ELOOP, libc::EACCES]);
+    let follow = any_follow();
+    let depth: usize = kani::any();
+    kani::assume(depth <= 1);
+    let follows = follow.follow_at_depth(depth);
+    let entry = WalkEntry::new("a", depth, follow);
+    let big_y: bool = kani::any();
+    let r = format_directive(&entry, &FormatDirective::Type { follow_links: big_y });
+    match r {
+        Ok(s) => {
+            let b = s.as_bytes();
+            assert!(b.len() == 1);
+            if !big_y {
+                match selected_record(lst, sst, s_ok, s_err, follows) {
+                    Some(rec) => assert!(b[0] == letter(rec.st_mode)),
+                    None => assert!(b[0] == b'U'),
+                }
+            } else if !follows {
+                let want = if !is_type(lst.st_mode, libc::S_IFLNK) { letter(lst.st_mode) }
+                    else if s_ok { letter(sst.st_mode) }
+                    else if s_err == libc::ENOENT { b'N' } else if s_err == libc::ELOOP { b'L' } else { b'?' };
+                assert!(b[0] == want);
+            }
+            kani::cover!(!big_y && follows && is_type(lst.st_mode, libc::S_IFLNK) && s_ok);
+            kani::cover!(big_y && !follows && b[0] == b'N');
+            kani::cover!(big_y && !follows && b[0] == b'L');
+            std::mem::forget(s);
+        }
+        Err(e) => { std::mem::forget(e); assert!(false); }
+    }
+    std::mem::forget(entry);
+}
+#[kani::proof]
+#[kani::unwind(3)]
+#[kani::stub(alloc::fmt::format, fmt_stub)]
+#[kani::stub(alloc::raw_vec::handle_error, he_stub)]
+#[kani::stub(std::alloc::handle_alloc_error, hae_stub)]
+#[kani::stub(std::rt::thread_cleanup, noop_stub)]
+#[kani::stub(std::fs::metadata, stat_stub)]
+#[kani::stub(std::fs::symlink_metadata, lstat_stub)]
+fn c16_directive_y_canary() {
+    let (lst, _sst, _s_ok, _s_err) = any_world(&[libc::ENOENT]);
+    let entry = WalkEntry::new("a", 1, Follow::Never);
+    if let Ok(s) = format_directive(&entry, &FormatDirective::Type { follow_links: true }) {
+        assert!(s.as_bytes()[0] == letter(lst.st_mode)); // %Y == %y: must FAIL
+        std::mem::forget(s);
+    }
+    std::mem::forget(entry);
+}
